@@ -4,7 +4,7 @@ import re
 import z3
 from vlib.oblig import obligation, mval
 from vlib import loader, build as B
-from mirsym.engine import Obj, Ref, Inconclusive, ok, err
+from mirsym.engine import Obj, Ref, Inconclusive, ok, err, some, none
 from mirsym import models as M
 from mirsym.mir import MirError
 
@@ -162,3 +162,91 @@ def _fresh_default(ctx):
         o = Obj('relayer::write::conversion::Input'); o.attrs['blocks'] = ()
     o.attrs['default'] = True
     return o
+
+
+# ----------------------------------------------------------------------------------------------------------------- C12-3
+@obligation('C12', 'C12-3 Input::extend_from_sequencer_block: the block\'s metadata is always added; exactly the rollup data the filter includes is added, under the rollup\'s namespace, in order; excluded rollups only get recorded as excluded')
+def c12_3(run):
+    INCL = z3.Function('filter_includes_rollup', z3.BitVecSort(256), z3.BoolSort())
+    NS = z3.Function('namespace_of_rollup', z3.BitVecSort(256), z3.BitVecSort(232))
+
+    def h_split(ctx):
+        blk = ctx.ex.deref_val(ctx.st, ctx.args[0])
+        return [(None, (blk.attrs['metadata'], M.new_vec('Vec<SubmittedRollupData>', list(blk.attrs['rollup_data']))))]
+
+    def h_into_raw(ctx):
+        v = ctx.ex.deref_val(ctx.st, ctx.args[0])
+        o = Obj('raw', kind='opaque'); o.attrs['tag'] = 'raw:' + v.attrs['tag']
+        return [(None, o)]
+    hooks = [(re.compile(r'SequencerBlock::split_for_celestia$'), h_split), (re.compile(r'SequencerBlock::height$'), lambda ctx: [(None, ctx.ex.deref_val(ctx.st, ctx.args[0]).attrs['height'])]),
+             (re.compile(r'(SubmittedMetadata|SubmittedRollupData)::into_raw$'), h_into_raw), (re.compile(r'SubmittedRollupData::rollup_id$'), lambda ctx: [(None, ctx.ex.deref_val(ctx.st, ctx.args[0]).attrs['rollup_id'])]),
+             (re.compile(r'IncludeRollup::should_include$'), lambda ctx: [(None, INCL(ctx.ex.deref_val(ctx.st, ctx.args[1])))]),
+             (re.compile(r'namespace_v0_from_rollup_id$'), lambda ctx: [(None, NS(ctx.ex.deref_val(ctx.st, ctx.args[0])))]),
+             (re.compile(r'^(relayer::write::conversion::)?sequencer_namespace$'), lambda ctx: [(None, z3.BitVec('sequencer_namespace_of_block', 232))]),
+             (re.compile(r'(^|::)Height::value$'), lambda ctx: [(None, ctx.ex.deref_val(ctx.st, ctx.args[0]))])]
+    sc = {'tendermint::block::Height': 64, 'SequencerHeight': 64, 'astria_core::primitive::v1::RollupId': 256, 'RollupId': 256, 'celestia_types::nmt::Namespace': 232, 'Namespace': 232, 'nmt::Namespace': 232}
+    ex = loader.load(['astria-sequencer-relayer'], hooks=hooks, scalar_types=sc)
+    cands = [n for n in ex.fns if n.endswith('::extend_from_sequencer_block') and 'closure' not in n]
+    if len(cands) != 1:
+        raise Inconclusive(f'extend_from_sequencer_block not found: {cands}')
+    run.bound(block='0..2 rollup data entries with arbitrary rollup ids (equal or different)', input='empty accumulator or one holding one earlier block with one included rollup', filter='arbitrary predicate on the rollup id (uninterpreted)')
+    n = 0
+    for pre in (0, 1):
+        for k in (0, 1, 2):
+            rids = [z3.BitVec(f'rollup_id{j}', 256) for j in range(k)]
+            rds = []
+            for j in range(k):
+                r_ = Obj('astria_core::sequencerblock::v1::SubmittedRollupData', kind='opaque'); r_.attrs['tag'] = f'rd{j}'; r_.attrs['rollup_id'] = rids[j]
+                rds.append(r_)
+            md = Obj('astria_core::sequencerblock::v1::SubmittedMetadata', kind='opaque'); md.attrs['tag'] = 'md-new'
+            blk = Obj('astria_core::sequencerblock::v1::SequencerBlock', kind='opaque'); blk.attrs.update(metadata=md, rollup_data=rds, height=z3.BitVec('block_height', 64))
+            old_rid, old_ns = z3.BitVec('old_rollup_id', 256), z3.BitVec('old_namespace', 232)
+            oldraw = Obj('raw', kind='opaque'); oldraw.attrs['tag'] = 'raw:old'
+            oldmd = Obj('raw', kind='opaque'); oldmd.attrs['tag'] = 'raw:md-old'
+            meta = B.struct(ex, 'InputMeta', sequencer_heights=M.new_map('BTreeSet<SequencerHeight>', [(z3.BitVec('old_height', 64), ())] if pre else []),
+                            sequencer_namespace=(some(z3.BitVec('old_sequencer_namespace', 232)) if pre else none()),
+                            rollups_included=M.new_map('HashMap<RollupId, Namespace>', [(old_rid, old_ns)] if pre else []), rollups_excluded=M.new_map('HashSet<RollupId>', []))
+            inp = B.struct(ex, 'Input', metadata=M.new_vec('Vec<SubmittedMetadata>', [oldmd] if pre else []),
+                           rollup_data_for_namespace=M.new_map('HashMap<Namespace, Vec<SubmittedRollupData>>', [(old_ns, M.new_vec('Vec<SubmittedRollupData>', [oldraw]))] if pre else []), meta=meta)
+            st = ex.start(cands[0], [B.cell(inp), blk, B.cell(Obj('IncludeRollup', kind='opaque'))])
+            if pre:
+                st.pc.append(old_ns == NS(old_rid))
+            for i, p in enumerate(run.explore(ex, st, allow_havoc=(r'^Arguments::|fmt::',))):
+                lab = f'[{pre} earlier blocks, {k} rollup entries, path {i}]'
+                if p.kind != 'return':
+                    run.prove(f'no panic {lab}', p.pc, z3.BoolVal(False), detail=p.info); continue
+                n += 1
+                inp1 = ex.read(p, p.roots['args'][0].loc)
+                mds = [ex.deref_val(p, x).attrs.get('tag') for x in B.fld(ex, p, inp1, 'metadata', 'Vec').attrs['items']]
+                dmap = B.fld(ex, p, inp1, 'rollup_data_for_namespace', 'HashMap').attrs['items']
+                per_ns = [(ex.deref_val(p, kk), [ex.deref_val(p, x).attrs.get('tag') for x in ex.deref_val(p, v).attrs['items']]) for kk, v in dmap]
+                meta1 = B.fld(ex, p, inp1, 'meta', 'InputMeta')
+                excl = [ex.deref_val(p, kk) for kk, _ in B.fld(ex, p, meta1, 'rollups_excluded', 'HashSet').attrs['items']]
+                incl = [(ex.deref_val(p, kk), ex.deref_val(p, v)) for kk, v in B.fld(ex, p, meta1, 'rollups_included', 'HashMap').attrs['items']]
+                run.sample({'pre': pre, 'entries': k, 'path': i, 'metadata': mds, 'data': [t for _, t in per_ns], 'excluded': len(excl)})
+                claim = [z3.BoolVal(mds == (['raw:md-old'] if pre else []) + ['raw:md-new'])]
+                placed = {f'raw:rd{j}': [] for j in range(k)}
+                for nsv, tags in per_ns:
+                    for t in tags:
+                        if t in placed: placed[t].append(nsv)
+                all_tags = [t for _, tags in per_ns for t in tags]
+                for j in range(k):
+                    inc = INCL(rids[j])
+                    here = placed[f'raw:rd{j}']
+                    claim.append(z3.If(inc, z3.BoolVal(len(here) == 1), z3.BoolVal(len(here) == 0)))
+                    if len(here) == 1:
+                        claim.append(here[0] == NS(rids[j]))
+                        claim.append(z3.Or(*[z3.And(a == rids[j], b == NS(rids[j])) for a, b in incl]) if incl else z3.BoolVal(False))
+                    else:
+                        claim.append(z3.Or(*[e == rids[j] for e in excl]) if excl else z3.BoolVal(False))
+                if pre:
+                    claim.append(z3.BoolVal(all_tags.count('raw:old') == 1))
+                # order of the block's entries inside one namespace list follows the block
+                for nsv, tags in per_ns:
+                    new = [t for t in tags if t.startswith('raw:rd')]
+                    claim.append(z3.BoolVal(new == sorted(new)))
+                claim.append(z3.BoolVal(len(all_tags) == len(set(all_tags))))
+                run.prove(f'metadata appended unconditionally; every entry placed exactly once under its rollup\'s namespace iff the filter includes it, otherwise recorded as excluded; earlier content kept {lab}', p.pc, z3.And(*claim))
+    if not n:
+        raise Inconclusive('vacuity')
+    run.require_reached(*run.cur.reach)
